@@ -7,7 +7,7 @@
         rCheck   if !remove_list.is_empty()
         rTake      if let Some(t) = wakeup.take()
         rUnpark      t.unpark()                                      -- wakes itself: the park below returns at once
-        rSched   match timer_list.schedule_timer(now(), f)           -- its decisive look at the heap
+        rSched   match timer_list.schedule_timer(now(), f)           -- every look at the heap (`peek`), the last one decides
         rPark      Some(d) => thread::park_timeout(d) | None => thread::park()
       add_timer (actors >= 1):   aAdd   (h, is_recal) = timer_list.add_timer(..)   -- installed when it returns
                                  aTake  if is_recal { if let Some(t) = wakeup.take()
@@ -29,14 +29,19 @@ local notation "Tid" => Nat
 
 inductive Pc
   | idle
-  | rPop | rStore | rCheck | rTake | rUnpark | rSched | rPark (timed : Bool)
-  | aAdd (isHead : Bool) | dPush | aTake | aUnpark
+  | rPop | rStore | rCheck | rTake | rUnpark | rSched (peeked : Bool) | rPark (timed : Bool) | rDone
+  | aAdd | dPush | aTake | aUnpark
   deriving DecidableEq, Repr
 
 inductive Env
-  | startAdd (isHead : Bool)     -- add_timer; `isHead`: the new entry became the head of its list (is_recal)
+  | startAdd                     -- add_timer
+  | linked (isHead : Bool)       -- what timer_list.add_timer answers: the new entry became the head of its list (is_recal)
   | startDel                     -- del_timer
+  | startStop                    -- verification harness only: `verif_stop(true)` = set the stop flag, unpark the timer thread
+  | peek                         -- schedule_timer looks at the top of the heap (it does so at least once, last before it returns)
   | sched (timed : Bool)         -- what schedule_timer answers: Some(delay) / None
+  | selfWake                     -- harness only: the expiry handler (on the timer thread) calls `verif_stop(true)`
+  | stop                         -- harness only: `run` sees the stop flag at the top of its loop and returns
   | timeout                      -- the timed park times out
   | spurious                     -- park returns spuriously
   | go
@@ -54,22 +59,28 @@ structure Sh where
 
 def tstep (sh : Sh) (me : Tid) : Pc → Env → Option (Sh × Pc)
   -- the timer thread
+  | .rPop, .stop => some (sh, .rDone)
   | .rPop, _ => if sh.rq > 0 then some ({ sh with rq := sh.rq - 1 }, .rPop) else some (sh, .rStore)
   | .rStore, _ => some ({ sh with wakeup := true }, .rCheck)
-  | .rCheck, _ => if sh.rq > 0 then some (sh, .rTake) else some (sh, .rSched)
-  | .rTake, _ => if sh.wakeup then some ({ sh with wakeup := false, taker := me }, .rUnpark) else some (sh, .rSched)
-  | .rUnpark, _ => some ({ sh with token := true }, .rSched)
-  | .rSched, .sched timed => some ({ sh with seen := sh.ver }, .rPark timed)
-  | .rSched, _ => none
+  | .rCheck, _ => if sh.rq > 0 then some (sh, .rTake) else some (sh, .rSched false)
+  | .rTake, _ => if sh.wakeup then some ({ sh with wakeup := false, taker := me }, .rUnpark) else some (sh, .rSched false)
+  | .rUnpark, _ => some ({ sh with token := true }, .rSched false)
+  | .rSched _, .peek => some ({ sh with seen := sh.ver }, .rSched true)
+  | .rSched p, .selfWake => some ({ sh with token := true }, .rSched p)
+  | .rSched true, .sched timed => some (sh, .rPark timed)
+  | .rSched _, _ => none
   | .rPark timed, e =>
       if sh.token then some ({ sh with token := false }, .rPop)
       else if (e = .timeout ∧ timed = true) ∨ e = .spurious then some (sh, .rPop)
       else none
+  | .rDone, _ => none
   -- add_timer / del_timer
-  | .idle, .startAdd isHead => if me ≠ 0 then some (sh, .aAdd isHead) else none
+  | .idle, .startAdd => if me ≠ 0 then some (sh, .aAdd) else none
   | .idle, .startDel => if me ≠ 0 then some (sh, .dPush) else none
+  | .idle, .startStop => if me ≠ 0 then some (sh, .aUnpark) else none
   | .idle, _ => none
-  | .aAdd isHead, _ => if isHead then some ({ sh with ver := sh.ver + 1, w := me }, .aTake) else some (sh, .idle)
+  | .aAdd, .linked isHead => if isHead then some ({ sh with ver := sh.ver + 1, w := me }, .aTake) else some (sh, .idle)
+  | .aAdd, _ => none
   | .dPush, _ => some ({ sh with rq := sh.rq + 1, w := me }, .aTake)
   | .aTake, _ => if sh.wakeup then some ({ sh with wakeup := false, taker := me }, .aUnpark) else some (sh, .idle)
   | .aUnpark, _ => some ({ sh with token := true }, .idle)
